@@ -124,5 +124,8 @@ def orPanicO {α : Type} (o : Option α) (k : α → Outcome) : Outcome :=
 -- [shm] begin: the array comparison added to `binOp` (`Rs/Interp.lean`, block `[shm]`)
 rs_register_eqns intListEq
 -- [shm] end
+-- [poller] begin: trait-impl method resolution (`Rs/Interp.lean`, block [poller])
+rs_register_eqns SelfKind.hasRecv traitImplCands traitImplDecl
+-- [poller] end
 
 end ClockBound.Rs
